@@ -95,6 +95,8 @@ def run(ctx) -> None:
     ctx.rule("R6", "prerequisite: 'the new version is rejected' - the gate rejects every version that is not strictly greater / does not match, before anything is written (C01/R1-R3)")
     from sa.report import run_prerequisite
     run_prerequisite(ctx, "C01", ("R1", "R2", "R3"), "R6")
+    ctx.rule("R7", "prerequisite: 'whenever --dry reports such an error, the real run changes nothing' - the real run validates every configured file through the same records as the diff (C04/R4)")
+    run_prerequisite(ctx, "C04", ("R4",), "R7")
     run_prerequisite(ctx, "C09", ("R5",), "R6")       # ... including the rejection of a version that already exists as a tag
 
     from checks.c03 import all_patterns_found_rule
@@ -156,6 +158,8 @@ def run(ctx) -> None:
             else:
                 ctx.ok("R2", what + f" [{', '.join(sorted(oc))}]")
     ctx.floor("R2", "handlers guarding rewrite validation", n_handlers, 3)
+
+    missing_file_rule(ctx, "R2")
 
     # ---------------------------------------------------------------- R3
     cfg = cfgs.get("cli._update")
@@ -291,3 +295,60 @@ def _loads(root: ast.AST) -> T.Set[str]:
             out.add(n.id)
         stack.extend(ast.iter_child_nodes(n))
     return out
+
+
+def missing_file_rule(ctx, rule: str) -> None:
+    """rewrite.iter_path_patterns_items evaluated on abstract paths: every configured entry is yielded with its own patterns in
+    configured order, and a configured file that does not exist raises IOError - also for an entry with an empty pattern list."""
+    from sa.model import Abstract, CannotFold, EvalError
+    prog = ctx.prog
+    fn = prog.function("rewrite.iter_path_patterns_items")
+    ctx.visit(fn.fq)
+
+    class P(Abstract):
+        def __init__(self, name: str, there: bool):
+            self.name, self.there = name, there
+
+        def exists(self) -> bool:
+            return self.there
+
+        def is_file(self) -> bool:
+            return self.there
+
+        def __repr__(self) -> str:
+            return self.name
+    wrong: T.List[str] = []
+    n = 0
+    try:
+        for existing, conf in ((("a.txt", "gen.md", "b.txt"), {"a.txt": ["P1"], "gen.md": [], "b.txt": ["P2", "P3"]}),
+                               (("a.txt", "b.txt"), {"a.txt": ["P1"], "gen.md": [], "b.txt": ["P2"]}),
+                               (("a.txt",), {"a.txt": ["P1"], "b.txt": ["P2"]})):
+            made: T.Dict[str, P] = {}
+
+            def mk(f: T.Any, node: ast.Call, existing=existing, made=made) -> P:
+                name = f(node.args[0])
+                made.setdefault(name, P(name, name in existing))
+                return made[name]
+            env = {fn.params[0]: dict(conf), "__strict__": True, "__stubs__": {"pl.Path": mk, "pathlib.Path": mk}}
+            try:
+                _r, ys = prog.run_body(fn, env)
+                got: T.Any = [(repr(y[0]), y[1]) for y in ys]
+            except EvalError as ex:
+                got = [(repr(y[0]), y[1]) for y in env.get("__yields__", [])] + [f"raises {getattr(ex, 'raised', ex)}"]
+            want: T.List[T.Any] = []
+            for k, v in conf.items():
+                if k in existing:
+                    want.append((k, v))
+                else:
+                    want.append("raises IOError")
+                    break
+            n += 1
+            norm = [("raises IOError" if isinstance(g, str) and g.split()[-1] in ("IOError", "OSError", "FileNotFoundError") else g) for g in got]
+            if norm != want:
+                wrong.append(f"files {list(conf)} (existing: {list(existing)}): {got}, expected {want}")
+    except (CannotFold, TypeError, AttributeError, KeyError, ValueError, IndexError) as ex:
+        ctx.observe(f"rewrite.iter_path_patterns_items not evaluated ({type(ex).__name__}: {str(ex)[:80]})")
+        return
+    ctx.check(rule, not wrong, f"iter_path_patterns_items: every configured file in order, IOError for a missing one whatever its patterns ({n} configurations evaluated)",
+              "rewrite.iter_path_patterns_items: a configured file that is missing is not an error (or an entry is skipped)", "; ".join(wrong[:2]), loc=fn.loc(),
+              witness={"file_patterns": {"CHANGELOG.md": []}})
